@@ -12,7 +12,6 @@ A case is a pure function of (book, case_seed): replay re-runs it.
 """
 import functools
 import glob
-import logging
 import os
 import random
 import re
@@ -93,7 +92,7 @@ def stage(ctx, book):
 
 def compile_primed(ctx, book, **kw):
     from pycel import ExcelCompiler
-    logging.disable(logging.CRITICAL)
+    core.silence()
     with warnings.catch_warnings():
         warnings.simplefilter('ignore')
         comp = ExcelCompiler(filename=stage(ctx, book), **kw)
@@ -639,7 +638,7 @@ def _stored_numbers(book):
 @functools.lru_cache(maxsize=None)
 def _baseline_report_empty(book):
     from pycel import ExcelCompiler
-    logging.disable(logging.CRITICAL)
+    core.silence()
     with warnings.catch_warnings():
         warnings.simplefilter('ignore')
         import contextlib
@@ -678,7 +677,7 @@ def c12_case(ctx, book, case_seed):
     if not alter_stored_number(_path(book), dst, sheet, coord, new):
         ctx.count('real_book_cell_not_alterable')
         return
-    logging.disable(logging.CRITICAL)
+    core.silence()
     how = rng.choice(['all', 'cell', 'dependant'])
     try:
         with warnings.catch_warnings():
@@ -755,7 +754,7 @@ def _load_formulas(book):
 
 def _compile_book(workbook, **kw):
     from pycel import ExcelCompiler
-    logging.disable(logging.CRITICAL)
+    core.silence()
     with warnings.catch_warnings():
         warnings.simplefilter('ignore')
         return ExcelCompiler(excel=workbook, **kw)
